@@ -7,9 +7,99 @@ source).  All hold for every dataset (no size bound), any number of groups, ever
 "Every group contains both labels" is `BothLabels groups`; a successful fit implies it.
 -/
 import FairModel.Lemmas.ThresholdFit
+import FairModel.Lemmas.ThresholdPredict
 
 namespace C04
 open Threshold ThresholdGen
+
+/-! ### Tie to `_tradeoff_curve_utilities.py`: what the definitions LIFTED on every run (`Generated/TradeoffSrc.lean`)
+have to say for the geometry below.  `Model/Threshold.lean` is defined over the lifted definitions and every lemma file
+goes through these statements (`Lemmas/ThresholdSrc.lean`), so an edit of the source breaks the matching one. -/
+
+/-- hull: `r1` is dropped iff `(r1.y - r0.y) * (r2.x - r0.x) <= (r2.y - r0.y) * (r1.x - r0.x)`, i.e. iff `r1` is on or
+    below the chord `r0 → r2`; collinear and duplicate points ARE dropped (`<=`, not `<`) -/
+theorem src_hull_test (r0 r1 r2 : Pt) : dropTest r0 r1 r2 = true ↔ cross r0 r2 r1 ≤ 0 := dropTest_iff r0 r1 r2
+
+/-- hull loop: `while len(selected) >= 2`, `r1 = selected[-1]`, `r0 = selected[-2]`, `selected.pop()` drops `r1` -/
+theorem src_hull_loop : TradeoffSrc.hullMinLen = 2 ∧ TradeoffSrc.hullR1Back = 1 ∧ TradeoffSrc.hullR0Back = 2 ∧
+    TradeoffSrc.hullPopsLast = true := src_hull_loop_shape
+
+/-- the points are sorted by `["x", "y"]`, ascending, before the hull is taken; scores by decreasing score -/
+theorem src_sort_orders (a b : Pt) (y r : Row) :
+    (lexLt a b = true ↔ (a.x < b.x ∨ (a.x = b.x ∧ a.y < b.y))) ∧ (scoreBefore y r = true ↔ y.score < r.score) :=
+  ⟨src_lexLt a b, src_scoreBefore y r⟩
+
+/-- threshold candidates: `+inf` for the initial point, the midpoint between consecutive distinct scores, `-inf` last -/
+theorem src_thresholds (t s : Rat) :
+    thrInitial = Thr.pinf ∧ thrSentinel = Thr.ninf ∧ TradeoffSrc.midThreshold t s = (t + s) / 2 :=
+  ⟨src_thrInitial, src_thrSentinel, src_midThreshold t s⟩
+
+/-- **betweenness is all the sweep needs of a stored threshold**: two thresholds strictly between the same pair of
+    consecutive score levels `lo < hi` define the same `>` rule and the same `<` rule on every score that is not strictly
+    between the two levels (in particular on every training score) — so `sweep_point_sound`, and with it `parity_*`, hold
+    for ANY stored threshold `θ` with `lo < θ < hi`, not only for the exact midpoint -/
+theorem threshold_betweenness_suffices (θ θ' lo hi s : Rat) (h : lo < θ ∧ θ < hi) (h' : lo < θ' ∧ θ' < hi)
+    (hs : s ≤ lo ∨ hi ≤ s) :
+    (Thr.fin θ).below s = (Thr.fin θ').below s ∧ (Thr.fin θ).above s = (Thr.fin θ').above s := by
+  simp only [Thr.below, Thr.above, src_opGt_eq, src_opLt_eq]
+  rcases hs with hs | hs
+  · exact ⟨by rw [decide_eq_false (by linarith), decide_eq_false (by linarith)],
+           by rw [decide_eq_true (by linarith), decide_eq_true (by linarith)]⟩
+  · exact ⟨by rw [decide_eq_true (by linarith), decide_eq_true (by linarith)],
+           by rw [decide_eq_false (by linarith), decide_eq_false (by linarith)]⟩
+
+/-- in exact arithmetic the lifted midpoint IS strictly between two distinct scores -/
+theorem midpoint_strictly_between (t s : Rat) (h : s < t) :
+    s < TradeoffSrc.midThreshold t s ∧ TradeoffSrc.midThreshold t s < t := by
+  rw [src_midThreshold]; constructor <;> linarith
+
+/-- ... and the hypothesis is sharp: a threshold ON the upper level (what binary64 rounding of the midpoint of two
+    adjacent doubles produces, known finding F18) does not select that level with `>`, a threshold on the lower level
+    does not select it with `<` -/
+theorem threshold_on_score_breaks_rule (lo hi : Rat) :
+    (Thr.fin hi).below hi = false ∧ (Thr.fin lo).above lo = false := by
+  simp [Thr.below, Thr.above, src_opGt_eq, src_opLt_eq]
+
+/-- interpolation index: `searchsorted(side="right") - 1`, and one more step to the left when a grid value with index
+    ≥ 1 equals the vertex found -/
+theorem src_interp_index (xs : List Rat) (i : Nat) (g : Rat) :
+    interpIndex xs i g =
+      (if countLE xs g = 0 then none else
+        if i ≥ 1 ∧ xs[countLE xs g - 1]? = some g then
+          (if countLE xs g - 1 = 0 then none else some (countLE xs g - 1 - 1))
+        else some (countLE xs g - 1)) := src_interpIndex xs i g
+
+/-- interpolation weights: `p0 = (x_next - g) / (x_next - x_cur)` goes with the LEFT vertex' operation and y,
+    `p1 = 1 - p0` with the right one -/
+theorem src_interp_weights (xcur xnext ycur ynext g : Rat) :
+    TradeoffSrc.interpP0 xcur xnext g = (xnext - g) / (xnext - xcur) ∧
+    TradeoffSrc.interpP1 xcur xnext g = 1 - (xnext - g) / (xnext - xcur) ∧
+    TradeoffSrc.interpY xcur xnext ycur ynext g =
+      (xnext - g) / (xnext - xcur) * ycur + (1 - (xnext - g) / (xnext - xcur)) * ynext ∧
+    TradeoffSrc.op0FromNext = false ∧ TradeoffSrc.op1FromNext = true :=
+  ⟨src_interpP0 xcur xnext g, src_interpP1 xcur xnext g, src_interpY xcur xnext ycur ynext g, src_interpOps.1,
+   src_interpOps.2⟩
+
+/-- fit glue (`Generated/ThresholdFitSrc.lean`): the grid is `np.linspace(0, 1, N + 1)`, the overall curve is the
+    `len(group) / n`-weighted sum of the groups' interpolated objectives accumulated from 0, `p_ignore` is 0 on the ROC
+    diagonal and `(y - y_best) / (y - x)` elsewhere, the best index is `idxmax`, `n_negative = n - n_positive` -/
+theorem src_fit_glue (N i : Nat) (groups : List (List Row)) (is : List Interp) (r : Interp) (yBest n npos : Rat) :
+    gridVal N i = (i : Rat) / (N : Rat) ∧
+    objSimple groups is =
+      (List.zipWith (fun (g : List Row) (r : Interp) => ((g.length : Rat) / (totalRows groups : Rat)) * r.y) groups is).sum ∧
+    pIgnore r yBest = (if r.y = r.x then 0 else (r.y - yBest) / (r.y - r.x)) ∧
+    ThresholdFitSrc.bestIsIdxmax = true ∧ ThresholdFitSrc.eoNNeg n npos = n - npos :=
+  ⟨src_gridVal N i, src_objSimple groups is, src_pIgnore r yBest, (src_fit_misc n npos).1, (src_fit_misc n npos).2⟩
+
+/-- predict path as the fit sees it (`Generated/ThresholderSrc.lean`): operator ">" is `score > threshold`, "<" is
+    `score < threshold`, and `_pmf_predict` is `p_ignore * c + (1 - p_ignore) * (p0 * op0(s) + p1 * op1(s))` -/
+theorem src_predict_path (r : Rule) (s t : Rat) :
+    (ThresholderSrc.opGt s t = true ↔ t < s) ∧ (ThresholderSrc.opLt s t = true ↔ s < t) ∧
+    ruleProb r s =
+      (match r.ign with
+       | none => r.p0 * ind (r.op0.apply s) + r.p1 * ind (r.op1.apply s)
+       | some (pi, c) => pi * c + (1 - pi) * (r.p0 * ind (r.op0.apply s) + r.p1 * ind (r.op1.apply s))) :=
+  ⟨by rw [src_opGt_eq]; simp, by rw [src_opLt_eq]; simp, src_ruleProb r s⟩
 
 /-- (a) every METRIC_DICT entry is affine in the confusion counts for a fixed number of positives and negatives -/
 theorem metric_affine (m : Metric) (a b : Rat) (A B : CM) (hab : a + b = 1)
@@ -205,7 +295,7 @@ theorem parity_EO (flip : Bool) (obj : Metric) (N : Nat) (groups : List (List Ro
   have hry_min : yBest ≤ best[j].y := hyle _ (List.mem_map.mpr ⟨best[j], List.getElem_mem hjb, rfl⟩)
   refine ⟨by rw [ex]; ring, ?_, pIgnore best[j] yBest, gridVal N fit.iBest, rfl, ?_, ?_, rfl⟩
   · rw [ey]
-    unfold pIgnore
+    rw [src_pIgnore]
     by_cases hd : best[j].y = best[j].x
     · rw [if_pos hd]
       have : best[j].y = yBest := le_antisymm (by rw [hd, hrx]; exact hyB) hry_min |>.symm ▸ rfl
@@ -213,20 +303,71 @@ theorem parity_EO (flip : Bool) (obj : Metric) (N : Nat) (groups : List (List Ro
     · rw [if_neg hd]
       have hne : best[j].y - best[j].x ≠ 0 := sub_ne_zero.mpr hd
       rw [← hrx]; field_simp; ring
-  · unfold pIgnore
+  · rw [src_pIgnore]
     by_cases hd : best[j].y = best[j].x
     · rw [if_pos hd]
     · rw [if_neg hd]
       have : 0 < best[j].y - best[j].x := by
         rw [hrx]; exact lt_of_le_of_ne (by linarith) (fun h => hd (by rw [hrx]; linarith))
       exact div_nonneg (by linarith) (le_of_lt this)
-  · unfold pIgnore
+  · rw [src_pIgnore]
     by_cases hd : best[j].y = best[j].x
     · rw [if_pos hd]; exact zero_le_one
     · rw [if_neg hd]
       have : 0 < best[j].y - best[j].x := by
         rw [hrx]; exact lt_of_le_of_ne (by linarith) (fun h => hd (by rw [hrx]; linarith))
       rw [div_le_one this]; rw [hrx]; linarith
+
+/-! ### Fit → predict: the parity theorems are about the pmf that `predict` really uses
+
+`ThresholdPredict.dictOf names fit.rules` is the `interpolation_dict` the fit stores (one Bunch per sensitive-feature value),
+`Pmf.thrPositive` is `InterpolatedThresholder._pmf_predict` (both over the expressions lifted from the source), and
+`predictedMetric m dict name rows` the expected value of metric `m` when every row of `rows` is predicted 1 with the
+probability `_pmf_predict` reports for it under sensitive-feature value `name`. -/
+
+open ThresholdPredict in
+/-- **fit_predict_consistent_simple**: computed from `_pmf_predict` of the fitted model on the training rows, every
+    group's expected constrained metric is exactly `x_best = iBest / N` and its expected objective metric is the `y` of the
+    group's interpolated curve at `x_best` -/
+theorem fit_predict_consistent_simple (flip : Bool) (xm ym : Metric) (N : Nat) (groups : List (List Row))
+    (force : Option Nat) (fit : Fit) (names : List String) (hN : 1 ≤ N) (hx : IsConstraintMetric xm)
+    (hfit : fitSimple flip xm ym N groups force = some fit) (hnd : names.Nodup) (hlen : names.length = groups.length) :
+    fit.interps.length = groups.length ∧
+    ∀ j (hj : j < groups.length) (hn : j < names.length) (hi : j < fit.interps.length),
+      predictedMetric xm (dictOf names fit.rules) names[j] groups[j] = gridVal N fit.iBest ∧
+      predictedMetric ym (dictOf names fit.rules) names[j] groups[j] = fit.interps[j].y := by
+  obtain ⟨hulls, cs, best, hh, hc, hb, hint, hrules, _, _⟩ := fitSimple_some hfit
+  obtain ⟨hi, hbest⟩ := List.getElem?_eq_some_iff.mp hb
+  obtain ⟨hrow, hent⟩ := curves_entry hx hh hN hc fit.iBest hi
+  have hlenh := (hullsOf_some hh).1
+  rw [hbest] at hrow hent
+  have hrl : fit.rules.length = groups.length := by rw [hrules]; simp [hrow]
+  refine ⟨by rw [hint]; exact hrow, ?_⟩
+  intro j hj hn hji
+  have hjb : j < best.length := by omega
+  obtain ⟨gc, hs⟩ := hent j hj hjb (by omega)
+  have hr : fit.rules[j]'(by omega) = simpleRule best[j] := by simp [hrules]
+  have hib : fit.interps[j] = best[j] := by simp [hint]
+  rw [predictedMetric_eq xm names fit.rules hnd (by omega) j hn (by omega),
+      predictedMetric_eq ym names fit.rules hnd (by omega) j hn (by omega), hr, hib]
+  exact expected_simple gc hs
+
+open ThresholdPredict in
+/-- **fit_predict_consistent_EO**: computed from `_pmf_predict` of the fitted model (interpolation mixed with the
+    constant `prediction_constant = x_best` with weight `p_ignore`) on the training rows, every group's expected false
+    positive rate is exactly `x_best` and its expected true positive rate exactly `y_best` -/
+theorem fit_predict_consistent_EO (flip : Bool) (obj : Metric) (N : Nat) (groups : List (List Row))
+    (force : Option Nat) (fit : Fit) (yBest : Rat) (names : List String) (hN : 1 ≤ N)
+    (hfit : fitEO flip obj N groups force = some (fit, yBest)) (hnd : names.Nodup)
+    (hlen : names.length = groups.length) :
+    ∀ j (hj : j < groups.length) (hn : j < names.length),
+      predictedMetric eoXMetric (dictOf names fit.rules) names[j] groups[j] = gridVal N fit.iBest ∧
+      predictedMetric eoYMetric (dictOf names fit.rules) names[j] groups[j] = yBest := by
+  obtain ⟨_, _, hrl, hpar⟩ := parity_EO flip obj N groups force fit yBest hN hfit
+  intro j hj hn
+  rw [predictedMetric_eq eoXMetric names fit.rules hnd (by omega) j hn (by omega),
+      predictedMetric_eq eoYMetric names fit.rules hnd (by omega) j hn (by omega)]
+  exact ⟨(hpar j hj (by omega)).1, (hpar j hj (by omega)).2.1⟩
 
 /-! ### Non-vacuity: a 3-group example with ties and a vertical first hull segment, evaluated by the kernel -/
 
@@ -257,5 +398,17 @@ example : (fitEO false .accuracy_score 4 ex none).map (fun f => f.1.rules.map (f
 example : (fitEO false .accuracy_score 4 ex none).map (fun f =>
       List.zipWith (fun r g => (expectedMetric .false_positive_rate r g, expectedMetric .true_positive_rate r g))
         f.1.rules ex) = some [(1/4, 1/2), (1/4, 1/2), (1/4, 1/2)] := by decide +kernel
+
+-- fit → predict: the same numbers computed from `_pmf_predict` of the stored interpolation_dict (keys "a", "b", "c")
+example : (fitEO false .accuracy_score 4 ex none).map (fun f =>
+      List.zipWith (fun n g =>
+        (ThresholdPredict.predictedMetric .false_positive_rate (ThresholdPredict.dictOf ["a", "b", "c"] f.1.rules) n g,
+         ThresholdPredict.predictedMetric .true_positive_rate (ThresholdPredict.dictOf ["a", "b", "c"] f.1.rules) n g))
+        ["a", "b", "c"] ex) = some [(1/4, 1/2), (1/4, 1/2), (1/4, 1/2)] := by decide +kernel
+-- unseen scores (7/8; 3/4 = exactly a fitted threshold) and an unseen group under the fitted equalized-odds model
+example : (fitEO false .accuracy_score 4 ex none).map (fun f =>
+      (ThresholdPredict.predictPmf ["a", "b", "c"] f.1 [("a", 7/8), ("a", 3/4), ("b", 5/8), ("zz", 1)]).map (·.2)) =
+    some [4/7, 5/14, 1/2, 0] := by
+  decide +kernel
 
 end C04
